@@ -153,6 +153,9 @@ def pow(a,b):
         br = b(r)
         da = deriv_a(r)
         return 0.0 if (br == 0.0 or da == 0.0) else br * ar**(br-1.0) * da
+      if ar == 0.0 and deriv_a(r) == 0.0 and b(r) > 0.0:
+        # A base that is the zero function (beyond the end of its range) under an exponent that varies with r: 0**b(r) stays zero.
+        return 0.0
       # The log term vanishes for a constant exponent, a**b is then also differentiable for negative a.
       log_term = db * math.log(ar) if db != 0.0 else 0.0
       return potential(r) * (log_term + b(r) * deriv_a(r)/ar)
@@ -178,6 +181,10 @@ def pow(a,b):
           t1 = 0.0 if (c1 == 0.0 or da == 0.0) else c1 * ar**(br-2.0) * da * da
           t2 = 0.0 if (br == 0.0 or d2a == 0.0) else br * ar**(br-1.0) * d2a
           return t1 + t2
+
+        if ar == 0.0 and da == 0.0 and d2a == 0.0 and br > 0.0:
+          # ... likewise for the curvature of 0**b(r)
+          return 0.0
 
         # value = (deriv_b(r)*log(a(r)) + b(r)*deriv_a(r)/a(r))*deriv(r) + (math.log(a(r))*deriv2_b(r) + b(r)*deriv2_a(r)/a(r) + deriv_a(r)*deriv2_b(r)/a(r) + deriv_b(r)*deriv2_a(r)/a(r) - b(r)*deriv_a(r)*deriv2_a(r)/a(r)**2)*potential(r)
         # The log terms vanish for a constant exponent, a**b is then also differentiable for negative a.
